@@ -32,7 +32,10 @@ def history_check(prop, tier, seed, shapes, monitors, modules, profiles, p_inval
         # a user `Clone` that panics at its k-th call inside Extend<Ref> / to_vec: `Vec<T>` is left with whole elements only
         fsh = [x for x in shapes if x in ("Two", "Flat4", "Heap", "NMid", "Deep")] if tier == "quick" else shapes
         _, oth = gen.fault_scenarios(fsh, 2 if tier == "quick" else 4, seed)
-        cf = [x for x in oth if x.tag in ("extend_refs-fault", "to_vec-fault", "resize-overflow", "clone_from-fault")]
+        # (`clone_from` with a panicking Clone is NOT compared with `Vec<T>` element by element: std leaves the destination in
+        #  an unspecified state - it truncates first - while the derived `clone_from` leaves it untouched; C02 asks lockstep of it,
+        #  C16 coherence)
+        cf = [x for x in oth if x.tag in ("extend_refs-fault", "to_vec-fault", "resize-overflow") or (prop == "C02" and x.tag == "clone_from-fault")]
         suites.append(run_suite(prop, cf, ["debug"] if tier == "quick" else profiles, monitors, "clone-fault", compare_model=False))
     if prop == "C03":
         # every other API that moves ownership: RefMut::replace, pointer writes, writes through views and iterators
